@@ -5,6 +5,9 @@
     `Res.comp`   ResurrectorSink over abstract channels, turn by turn   (Model/Resurrector.lean)
     `Pool.comp`  ResurrectorSink → WatermarkPoolSink → serial Thrift transport, at quiescence,
                  every operation's tasks under an arbitrary schedule    (Model/ResChain.lean)
+    `Heap.comp9` HeapBalancerSink over channels whose state the environment sets (Model/Heap.lean,
+                 Adapter/HeapC09.lean): the balancer's down list — a member whose channel is Open
+                 again takes part in the choice again at the next dispatch (theorems `C09_heap_*`)
 
   Quantification: every configuration with `0 < init ≤ max` and a back-off function that grows
   below the maximum (`Grows`; for the adapters: a table of waits growing until capped), every operation list
@@ -14,6 +17,7 @@
 -/
 import ScalesModel.Proofs.ResurrectorFacts
 import ScalesModel.Proofs.ResPoolLemmas
+import ScalesModel.Proofs.HeapC09
 namespace Scales.Res
 open Scales.Chain
 
@@ -168,7 +172,89 @@ theorem C09_fault_reaches_resurrector_thrift_counterexample :
     c.tasks = [] ∧ c.rDown = false ∧ c.rNext = true ∧ c.pSt = .opened ∧ c.tSt = .closed ∧ c.connects = 1 := by
   decide
 
+
+/-! ### the balancer hop: `HeapBalancerSink.__Get`'s walk over the down list (component `heap9`)
+
+  The ResurrectorSink below the balancer reconnects and reports Open again; the balancer resumes
+  sending the member traffic only once the walk over its list of downed nodes takes the penalty
+  off it.  `Heap.Inv` is the invariant of Props/C03.lean (preserved by every operation,
+  `C03_inv_*`); the bound on the number of dispatches is the one of C03/C04 (below 2^31−1 a load
+  ≥ 0 always means "marked down"). -/
+
+/-- **recovery at the balancer, state level.**  In every state with the invariant, whatever the
+    down list holds and in whatever order its nodes went down: every node that is in the heap with
+    an Open channel when a dispatch starts is, when the dispatch returns, still in the heap, not
+    marked down (load < 0: no penalty) and not on the down list — it competes for traffic again. -/
+theorem C09_heap_open_member_marked_up (s : Heap.HS) (h : Heap.Inv s) (hb : s.reqs.length + 1 < 2147483647)
+    (id : Nat) (hin : Heap.InHeap s id) (hop : (s.node id).chan = Heap.chOpen) :
+    Heap.InHeap (s.get Heap.noHook).1 id ∧ ((s.get Heap.noHook).1.node id).chan = Heap.chOpen ∧
+    ((s.get Heap.noHook).1.node id).load < 0 ∧ id ∉ (s.get Heap.noHook).1.down :=
+  Heap.get_recovers_open s h hb id hin hop
+
+/-- the same along histories: after every legal operation list (members joining and leaving,
+    channels going down and coming back in any order, dispatches and completions in between) the
+    next dispatch marks up every member whose channel is Open -/
+theorem C09_heap_open_member_marked_up_reachable (ops : List Heap.Op) (hok : Heap.opsOk Heap.HS.init ops = true)
+    (hb : Heap.getCount ops + 1 < 2147483647) (id : Nat)
+    (hin : Heap.InHeap (Heap.runOps Heap.HS.init ops) id)
+    (hop : ((Heap.runOps Heap.HS.init ops).node id).chan = Heap.chOpen) :
+    Heap.InHeap ((Heap.runOps Heap.HS.init ops).get Heap.noHook).1 id ∧
+    (((Heap.runOps Heap.HS.init ops).get Heap.noHook).1.node id).load < 0 ∧
+    id ∉ ((Heap.runOps Heap.HS.init ops).get Heap.noHook).1.down := by
+  obtain ⟨hi, hl⟩ := Heap.run_reqs_le ops Heap.HS.init Heap.Inv_init hok (by
+    show 0 + Heap.getCount ops < Heap.maxReqs
+    unfold Heap.maxReqs; omega)
+  have hl' : (Heap.runOps Heap.HS.init ops).reqs.length ≤ Heap.getCount ops := by
+    have : Heap.HS.init.reqs.length = 0 := rfl
+    omega
+  obtain ⟨a, _, c, d⟩ := Heap.get_recovers_open _ hi (by unfold Heap.maxReqs; omega) id hin hop
+  exact ⟨a, c, d⟩
+
+/-- **the recovered member is used again.**  An Open member with strictly fewer outstanding
+    requests than every other Open member receives the dispatch — no matter whether it was on the
+    down list before, where on the list it was, or which other members are still down. -/
+theorem C09_heap_recovered_member_is_used (s : Heap.HS) (h : Heap.Inv s) (m : Nat) (hin : Heap.InHeap s m)
+    (hop : (s.node m).chan = Heap.chOpen)
+    (hleast : ∀ m', Heap.InHeap s m' → (s.node m').chan = Heap.chOpen → m' ≠ m → Heap.outOf s m < Heap.outOf s m') :
+    (s.get Heap.noHook).2 = Heap.GetRes.node m (s.node m).ep s.reqs.length :=
+  Heap.get_uses_recovered s h m hin hop hleast
+
+/-- **C09 at the balancer hop, specification level.**  For every legal operation list with fewer
+    than 2^31−1 dispatches (`wf` of the component, as for C03/C04) the model's history satisfies the
+    executable specification `specC09`, the predicate the check evaluates on the observations of
+    the real HeapBalancerSink: after every dispatch no member whose channel is Open is marked down. -/
+theorem C09_heap_model_satisfies_spec (ops : List Heap.Op) (h : Heap.comp9.wf () ops = true) :
+    Heap.comp9.spec () (Heap.comp9.modelTrace () ops) = Verdict.ok := by
+  have h' : (Heap.opsOk Heap.HS.init ops && decide (Heap.getCount ops < 2147483647)) = true := h
+  rw [Bool.and_eq_true, decide_eq_true_eq] at h'
+  apply Heap.spec9_ok ops Heap.HS.init {} 0 Heap.Inv_init Heap.Sim0_init Heap.PrevOk_init h'.1
+  show 0 + Heap.getCount ops < Heap.maxReqs
+  unfold Heap.maxReqs; omega
+
 /-! ### the hypotheses are satisfiable -/
+
+/-- three members; 0 and 1 go down one after the other (1 is the head of the down list, 0 behind
+    it), 0 comes back first (non-LIFO), dispatches in between, then 1 comes back -/
+def c09HeapHist : List Heap.Op :=
+  [.join 7, .join 8, .join 9, .chan 0 2, .chan 1 2, .chan 2 2, .get, .chan 0 4, .get, .get, .chan 1 4, .get, .get,
+   .chan 0 2, .get, .put 0 0, .chan 1 2, .get, .get]
+
+set_option maxRecDepth 8000 in
+example : Heap.comp9.wf () c09HeapHist = true := by
+  simp [Heap.comp9, c09HeapHist, Heap.wfOps, Heap.opsOk, Heap.getCount, Heap.step, Heap.HS.join,
+    Heap.HS.addSink,
+    Heap.HS.fixUp, Heap.HS.fixDown, Heap.HS.init, Heap.HS.size, Heap.HS.at, Heap.HS.idAt, Heap.HS.node, Heap.Node.lt,
+    Heap.HS.swap, Heap.HS.setIndex, Heap.HS.setNode,
+    Heap.HS.setChan, Heap.HS.get, Heap.HS.getLoop, Heap.HS.scan, Heap.noHook, Heap.HS.put, Heap.HS.putNode,
+    Heap.HS.putDraws, Heap.Idle, Heap.Penalty, Heap.chOpen]
+
+/-- the specification is not vacuous: a history in which member 0 is Open at a dispatch and still
+    carries the penalty afterwards is rejected -/
+example : Heap.specC09 () [(.join 7, ⟨none, [⟨0, 7, Heap.Idle, 1, 0⟩], [], []⟩),
+      (.chan 0 2, ⟨none, [⟨0, 7, 3, 1, 0⟩], [], []⟩),
+      (.get, ⟨some (.node 0 7 0), [⟨0, 7, 4, 1, 0⟩], [], []⟩)] =
+    .fail "open-member-still-marked-down" [V.ofNat 2, V.ofNat 0] := by
+  rfl
 
 example : cfgWF defaultCfg = true := by decide
 example : ∀ w ∈ defaultCfg.table, w ≤ defaultCfg.par.f w ∧ (w < defaultCfg.maxW → w < defaultCfg.par.f w) := by decide
